@@ -55,6 +55,9 @@ def parser_for(o, order=0):
         prods['OARGS'] = llparser.ListProds('<', 'VALUE', delim, '>', allow_final_delimiter=_afd(o), optional=True)
         prods['LIST'] = llparser.ListProds('[', item, delim, ']', allow_final_delimiter=_afd(o))
         prods['MAP'] = llparser.MapProds('{', 'WORD', ':', 'VALUE', ',', '}', allow_final_delimiter=o['mapafd'])
+    elif o['top'] == 'rows':
+        prods = {'E': [('ROWS',)], 'ROWS': llparser.ListProds('[', 'ROW', ';', ']', allow_final_delimiter=False),
+                 'ROW': llparser.ListProds(None, 'WORD', delim, None)}
     elif o['top'] == 'baremap':
         prods['E'] = [('TOPMAP',)]
         prods['TOPMAP'] = llparser.MapProds(None, 'WORD', ':', 'VALUE', ',', None, allow_final_delimiter=o['mapafd'])
@@ -203,6 +206,14 @@ def run_case(job):
         for i, it in enumerate(items):
             toks += (['w', '='] + it + ([';'] if i + 1 < len(items) else []))
         full_want = ('NODE', 'E', [[('NODE', 'DECL', ['w', '=', wrap_args(x)]) for x in wl]])
+    elif o['top'] == 'rows':
+        # the items of the datum's top list are the rows: an atom is a row of one word, [] an empty row
+        items = want
+        toks = ['[']
+        for i, it in enumerate(items):
+            toks += ([it] if isinstance(it, str) else []) + ([';'] if i + 1 < len(items) else [])
+        toks.append(']')
+        full_want = ('NODE', 'E', [[[it] if isinstance(it, str) else [] for it in items]])
     elif o['top'] == 'baremap':
         toks = toks[1:-1]              # the top map has no brackets; no pairs = empty text = {}
         full_want = ('NODE', 'E', [want])
@@ -284,7 +295,32 @@ def seq_cases(rnd, n):
             probs.append(({'seq2': toks, 'text': text},
                           'a list / map that is an element of a sequence is not turned into a Python list / dict: %r gives %r, '
                           'expected the elements %r' % (text, got, want), ['ll.template_inside_sequence']))
+    # a non-terminal element listed before an AnyTokenExcept element that also matches its first token
+    for _ in range(n // 3):
+        elems = [rnd.choice([('a',), ('bb',), (',',), ('k', ':', 'v'), ('c1', ':', 'a')]) for _ in range(rnd.randrange(0, 6))]
+        toks = [t for e in elems for t in e] + [';']
+        text = to_text(toks, rnd)
+        prob = seq3_check(elems, text)
+        if prob:
+            probs.append(({'seq3': [list(e) for e in elems], 'text': text}, prob, []))
     return probs
+
+
+def seq3_check(elems, text):
+    from ak import llparser
+    if 'seq3' not in _PARSERS:
+        _PARSERS['seq3'] = llparser.LLParser(TOK, synonyms=SYN, productions={
+            'E': [('SEQ', ';')], 'SEQ': llparser.ProdSequence('PAIR', llparser.AnyTokenExcept(';', ':')),
+            'PAIR': [('WORD', ':', 'WORD')]})
+    want = [e[0] if len(e) == 1 else ('NODE', 'PAIR', list(e)) for e in elems]
+    try:
+        got = unwrap(_PARSERS['seq3'].parse(text))
+    except Exception as e:
+        return 'sequence %r raised %s' % (text, type(e).__name__)
+    seq = got[2][0] if isinstance(got, tuple) and got[2] else None
+    if seq != want and not (want == [] and seq in (None, [], ';')):
+        return 'sequence %r gives %r, expected the elements %r' % (text, got, want)
+    return None
 
 
 def run(ctx):
@@ -330,6 +366,8 @@ def replay(ctx, case):
             if c.get('seq2') == case['seq2']:
                 return prob
         return None
+    if 'seq3' in case:
+        return seq3_check([tuple(e) for e in case['seq3']], case['text'])
     if 'seq' in case:
         from ak import llparser
         p = llparser.LLParser(TOK, synonyms=SYN, productions={'E': [('SEQ',)], 'SEQ': llparser.ProdSequence('WORD', ',', ':')})
